@@ -42,13 +42,13 @@ CLAIMED = {
          "All ordered pairs of a 64-value pool through ==, !=, contains, filter equality and container wrappers (literal and document routes) against deep type-strict model equality with reflexivity, symmetry, negation; all triples for transitivity (thorough); every value pair through !, &&, ||, filter predicates against the single false-like set, && and || returning an operand unchanged; random nested values with controlled perturbations; whole comparison matrices computed inside one evaluation with operands rebound per element (every comparison node evaluated many times with different values and types).",
          "Numbers compared exactly as rationals; values beyond 34 digits are not in the pool.", "§6 C20"),
  "C14": ("metamorphic monitor: outcome invariance under re-typing of number leaves, library against itself",
-         "For documents of dyadic rationals (exact in every Go numeric kind) and 112 templates (incl. sorts and comparisons re-entered per element) plus random expressions, the outcome with all leaves as canonical json.Number is compared with the outcomes under 6 random assignments of Go kinds and json.Number spellings per case; a boundary stream does the same for large integral values (2^31..2^64, 2^100) in every kind that holds them exactly, alone and together with their neighbours v-1 and v+1.",
+         "For documents of dyadic rationals (exact in every Go numeric kind) and 112 templates (incl. sorts and comparisons re-entered per element) plus random expressions, the outcome with all leaves as canonical json.Number is compared with the outcomes under 6 random assignments of Go kinds and json.Number spellings per case; a boundary stream does the same for large integral values (2^31..2^64, 2^100) in every kind that holds them exactly, alone and together with their neighbours v-1 and v+1; a precise stream does it for 17 numbers that need more precision than a float64 has (near-integers, 2^63-1 with a fraction part) in every carrier that holds them exactly, and against the exact model.",
          "The precondition (every intermediate value exactly representable in each kind) is enforced by construction: dyadic leaves, no general division.", "§6 C14"),
  "C16": ("direct-oracle monitor over exhaustive short strings through every literal syntax",
          "Every string of length <= 3/4 over a 24-symbol hostile alphabet, a boundary set of code points and seeded long strings are written as raw strings, JSON literals (4 encodings) and quoted identifiers (as field and as multi-select key) and must decode to themselves, each preceded in the same process by malformed neighbours (bad escape after a valid prefix, unterminated literal); ladders of 20-70 keys/strings that are prefixes of one another evaluated in sequence and inside one expression; generated JSON values in random layouts between backticks must evaluate to themselves with numbers at full precision.",
          "The encoders are written from the grammar by the harness; the generator knows each expected value by construction.", "§6 C16"),
  "C18": ("domain-walk invariant + metamorphic re-query monitor, library against itself",
-         "Every result of value-constructing expressions is walked for non-JSON dynamic types, typed nils and non-finite numbers, serialised and decoded (views must agree), and re-queried: Search(e2, r1) and Search(e2, JSON round trip of r1) must equal Search('(e1) | e2', doc) and Search('e1 | e2', doc) for e2 from a 73-expression panel; a null-elements stream does the same for arrays with leading nulls built by projections, filters, slices and functions (map, zip, reverse, not_null...).",
+         "Every result of value-constructing expressions is walked for non-JSON dynamic types, typed nils and non-finite numbers, serialised and decoded (views must agree), and re-queried: Search(e2, r1) and Search(e2, JSON round trip of r1) must equal Search('(e1) | e2', doc) and Search('e1 | e2', doc) for e2 from a 73-expression panel; a literal-results stream does the same for JSON literals in random legal layouts (white space inside the backticks); a null-elements stream does the same for arrays with leading nulls built by projections, filters, slices and functions (map, zip, reverse, not_null...).",
          "to_string is excluded from the comparison after the JSON round trip (number spellings may differ); order-dependent enumerations are skipped when the model does not judge them.", "§6 C18"),
  "C19": ("reference-model monitor with unique-tag bindings",
          "66 canonical scope shapes (incl. null-valued inner bindings shadowing outer ones at every use site, wide lets of 6-10 bindings followed by narrow lets looking up unbound names) and seeded random nestings (depth 3-4, occasionally 5-10 bindings) bind unique tagged literals or the id of the current node, so each result identifies the binding and the context that were captured; every outcome is compared with the reference model's lexical environments, incl. undefined-variable errors only where the reference is evaluated.",
@@ -57,13 +57,13 @@ CLAIMED = {
          "Histories of 3-8 Expression.Search calls over 2-4 documents with repeats are checked call by call: outcome = fresh one-shot Search on a deep copy, every document byte-for-byte as snapshotted (incl. sentinel values in the unused capacity of every slice), AST fingerprint unchanged (hook VerifASTFingerprint), every earlier result still equal to its snapshot; a directed list applies every ordering/reversing/merging builtin to every way of passing an array of the document or a literal without a copy; an edited-in-place stream lets the caller edit its document between calls (same container identities) and requires Expression.Search and Search to agree with a fresh Search on a deep copy; MustCompile panics exactly when Compile fails.",
          "Aliasing between a result and its input is allowed; only writes are violations. Enumerating expressions are compared through the model (unordered-aware).", "§6 C06"),
  "C07": ("Go race detector (happens-before) over a barrier-released concurrent workload in fresh processes + per-call equality with the sequential outcome + AST fingerprint hook",
-         "Worker built with -race; in each fresh process ~440 shared compiled expressions (generated ones plus a directed list applying every ordering/reversing/merging builtin to every way of passing a shared array or literal without a copy) and 20 shared read-only documents are hammered by 2-64 goroutines (GOMAXPROCS 2/4/16) mixing Search, Compile+Search and sharedExpression.Search; every race-detector report, every outcome differing from the precomputed sequential outcome, and every change to a shared Expression (fingerprint) or document (deep snapshot) is a violation.",
+         "Worker built with -race; in each fresh process ~440 shared compiled expressions (generated ones plus a directed list applying every ordering/reversing/merging builtin to every way of passing a shared array or literal without a copy, large arrays with late type errors, integer arguments in every spelling and inexact arithmetic) and 20 shared read-only documents are hammered by 2-64 goroutines (GOMAXPROCS 2/4/16) mixing Search, Compile+Search and sharedExpression.Search; every race-detector report, every outcome differing from the precomputed sequential outcome, and every change to a shared Expression (fingerprint) or document (deep snapshot) is a violation.",
          "Only interleavings actually produced are judged; races on AST node types not covered by the shared expressions are not seen (coverage counted in the evidence). porcupine/gofail do not apply: there is no shared mutable object or critical section in the library.", "§6 C07"),
  "C08": ("contract invariants on every failing call + reference-model fault analysis + Compile/Search/document metamorphic checks",
          "Failing texts generated per category and site (every wrong arity of every builtin, unknown names, expression-reference position faults at every position, a wrong type at every argument position, every invalid-value site, undefined variables at every kind of site, division by zero/overflow, every dynamic fault category raised at the first/middle/last element of each per-element construct, two-fault combinations, syntax faults, mutated expressions, call histories: decorated variants, every prefix and several extensions of a text in sequence) are run through Compile, Search and Expression.Search on 13 documents: nil result with the error, exactly one exported category, category = the model's (or within its fault set), same static fault from Compile and from Search on every document, no static fault from a compiled Expression.",
          "Which of several simultaneous faults is reported is not judged beyond membership in the model's fault set.", "§6 C08"),
  "C15": ("online repetition monitor with rebuilt maps + offline cross-process comparison of recorded outcome digests + AST fingerprint hook",
-         "Each (expression, document) - forms that range Go maps, sibling/nested/wide lets, merges, groupings - is evaluated 20/100 times per process on independently rebuilt maps (shuffled insertion, capacity hints, churn), alternately through Search and fresh Compile, in 4/16 fresh processes; outcomes must agree within a process (online) and across processes (offline checker over the merged event logs), AST fingerprints too; strict comparison for order-free expressions, multiset comparison for enumerating ones.",
+         "Each (expression, document) - forms that range Go maps, sibling/nested/wide lets, merges, groupings - is evaluated 20/100 times per process on independently rebuilt maps (shuffled insertion, capacity hints, churn), alternately through Search, fresh Compile and a long-lived compiled Expression that is applied to a different document in between, in 4/16 fresh processes; outcomes must agree within a process (online) and across processes (offline checker over the merged event logs), AST fingerprints too; strict comparison for order-free expressions, multiset comparison for enumerating ones.",
          "Enumerating expressions are judged only when the model confirms no order-sensitive consumer is reached; a dependence needing a particular hash seed may need more processes (distinct member orders actually seen are counted).", "§6 C15"),
 }
 
